@@ -81,6 +81,78 @@ def cases_broad(tier):
                         yield (tuple(parts), wpc, spill, hl, fl, 1, True), subs
 
 
+class DestWriter(RecWriter):
+    """A recording writer that, like the real sinks (file path, bucket/key), has a destination and tokenises by it."""
+
+    def __init__(self, dest, *a, **kw):
+        super().__init__(*a, **kw)
+        self.dest = dest
+
+    def __dask_tokenize__(self):
+        return ("DestWriter", self.dest, self._m, self._min_part, self._max_part)
+
+
+def cases_joint(tier):
+    """Several assemblies in ONE graph: the same partitions (or different ones) written to k different destinations."""
+    shapes = [
+        (((5, 9), (3,), (14,)), (3,)),
+        (((5,), (14,), (20, 3)), (1, 2)),
+        (((14,), (14,)), (2,)),
+    ]
+    for parts, subs in shapes:
+        for k in (2, 3):
+            for same_data in (True, False):
+                for wpc in (1, 2):
+                    for spill in (0, M_SZ + 1):
+                        for hl, fl in ((0, 0), (3, 2)):
+                            yield (parts, wpc, spill, hl, fl, 1, True), subs, k, same_data
+
+
+def run_joint(case):
+    import dask.bag as db  # pylint: disable=import-outside-toplevel
+
+    cfg, subs, k, same_data = case
+    parts, wpc, spill, hl, fl, min_part, _ = cfg
+    graph, keys, cx = {}, [], {}
+    cfgs = []
+    for n in range(k):
+        # different data = the partitions rotated (same sizes, other order), so every destination has its own stream
+        pn = parts if same_data or n == 0 else parts[n % len(parts):] + parts[: n % len(parts)]
+        cfg_n = (pn, wpc, spill, hl, fl, min_part, True)
+        cfgs.append(cfg_n)
+        data = c06.chunk_bytes(pn)
+        w = DestWriter(f"dest{n}", M_SZ, min_part, c06.max_part_for(cfg_n))
+        bags, i = [], 0
+        for si, cnt in enumerate(subs):
+            name = f"src{n if not same_data else 0}-{si}"
+            bags.append(db.Bag({(name, j): list(data[i + j]) for j in range(cnt)}, name, cnt))
+            i += cnt
+        hdr = Callback(b"\xf0" * hl) if hl else None
+        ftr = Callback(b"\xfe" * fl) if fl else None
+        out = M.mpu_write(bags if len(bags) > 1 else bags[0], w, mk_header=hdr, mk_footer=ftr, writes_per_chunk=wpc, spill_sz=spill)
+        graph.update(dict(out.__dask_graph__()))
+        keys.append(out.key)
+        cx[f"w{n}"] = w
+    fails = {}
+    if len(set(keys)) != k:
+        fails["joint:finalise-keys-collide"] = f"{k} assemblies to different destinations produced finalise keys {keys}"
+    g = taskgraph.converted(graph, list(set(keys)))
+
+    def check(x: taskgraph.Exec):
+        if x.error is not None:
+            if not core.in_repo_tb(x.error):
+                raise x.error
+            fails.setdefault(f"joint:exception:{type(x.error).__name__}@{core.raise_site(x.error)}", f"{x.error}")
+            return
+        for n in range(k):
+            w = x.ctx[f"w{n}"]
+            for kk, msg in c06.judge_writes(cfgs[n], w.log, w.final):
+                fails.setdefault(f"joint:dest{'0' if n == 0 else 'N'}:" + kk, f"destination #{n} of {k}: {msg}")
+
+    st = taskgraph.explore(g, cx, check, 0)
+    return st, fails, len(g)
+
+
 def run_case(case, bound):
     cfg, subs = case
     stats, dp_fails = c06.explore_cfg(cfg)
@@ -158,7 +230,20 @@ def run(ctx):
                       f"ftr={case[0][4]}, substreams={case[1]}): {m}")
         return r
 
+    joint = list(cases_joint(ctx.tier))
+
+    def runj(case):
+        st, fails, ntasks = run_joint(case)
+        r = R(outcome=f"joint:k{case[2]}:{'same' if case[3] else 'different'}-data:subs{len(case[1])}")
+        r.counts = dict(dask_executions=st.executions, dask_tasks_run=st.tasks_run, transitions=st.tasks_run, dask_graphs=1)
+        for k_, m in fails.items():
+            r.fail(k_, f"cfg(partitions={case[0][0]}, wpc={case[0][1]}, spill={case[0][2]}, hdr={case[0][3]}, ftr={case[0][4]}, "
+                       f"substreams={case[1]}, destinations={case[2]}, same_data={case[3]}): {m}")
+        return r
+
     e1.run_slices(ctx, [
+        e1.Slice("dask-joint-destinations", lambda: iter(joint), runj,
+                 "2-3 assemblies to different destinations built into ONE graph and executed together"),
         e1.Slice(f"dask-orders-bound{bound}", gen, runc, sl["note"], shards=len(allcases)),
         e1.Slice("dask-substreams-broad", lambda: iter(broad), runb,
                  "every structure of 2-3 sub-streams x partition alphabet x options through the real mpu_write graph, "
